@@ -108,6 +108,12 @@ pub enum Ev {
     Save,
     Restart { dirty: bool },
     XlsxRestart,
+    /// export the primary's workbook through the simulated disk (with a write-fault
+    /// plan, possibly empty), import what was written, hand both to the oracle
+    XlsxExportImport { plan: crate::xlsxfault::WritePlan },
+    /// take a valid package (the primary's export, or a fixture from /repo/xlsx/tests),
+    /// damage it, import it (optionally through a fault-injecting reader)
+    CorruptImport { fixture: Option<String>, corrupt: crate::xlsxfault::Corrupt, read: Option<crate::xlsxfault::ReadPlan> },
     Tick { ms: u64 },
     // ---- probes that are user-level actions -------------------------------
     Retype { sheet: u32, row: i32, col: i32 },
@@ -192,6 +198,8 @@ impl Ev {
             Restart { dirty: false } => "RestartClean",
             Restart { dirty: true } => "RestartDirty",
             XlsxRestart => "XlsxRestart",
+            XlsxExportImport { .. } => "XlsxExportImport",
+            CorruptImport { .. } => "CorruptImport",
             Tick { .. } => "Tick",
             Retype { .. } => "Retype",
             InsertThenDelete { .. } => "InsertThenDelete",
@@ -224,6 +232,8 @@ impl Ev {
                 | Save
                 | Restart { .. }
                 | XlsxRestart
+                | XlsxExportImport { .. }
+                | CorruptImport { .. }
                 | Tick { .. }
         )
     }
@@ -232,7 +242,7 @@ impl Ev {
         use Ev::*;
         matches!(
             self,
-            Flush | Deliver { .. } | Save | Restart { .. } | XlsxRestart | Tick { .. }
+            Flush | Deliver { .. } | Save | Restart { .. } | XlsxRestart | XlsxExportImport { .. } | CorruptImport { .. } | Tick { .. }
         )
     }
 }
